@@ -10,7 +10,7 @@ OWN = ("dyn", "path", "point", "obj", "time", "extra", "states", "readback", "pa
 
 DIMS = dict(
     pg=["scalar", "mat", None],
-    pc=["control", "control+", None],
+    pc=["control", "control+", "both", None],
     horizon=["fixed", "Tparam", "t0param"],
     use=["rhs", "bound", "objective", "initial"],
     pgval=["a", "b"],
@@ -56,6 +56,8 @@ def finish(a):
     use = a["use"]
     if use == "bound":
         if d["pc"]: cons.append(P.con("pc_le"))
+        if d["pc"]: cons.append(P.con("next_pc"))
+        if d["pc"] == "both": cons.append(P.con("next_pcq"))
         if d["pg"] == "scalar": cons.append(P.con("pg_le"))
     if use == "objective":
         if d["pc"]: obj.append("integral_pc")
